@@ -120,7 +120,19 @@ var ciCmd = &cobra.Command{
 				// append GITHUB_WORKSPACE to output file path
 				outputFile = os.Getenv("GITHUB_WORKSPACE") + "/" + outputFile
 			}
-			if err := sarifReport.WriteFile(outputFile); err != nil {
+			// sarif.Report.WriteFile opens the file without truncating it: a report written over a longer one from
+			// an earlier run would keep the old tail and no longer be a JSON document
+			sarifFile, err := os.Create(outputFile)
+			if err != nil {
+				fmt.Println("Error creating sarif report: ", err)
+				os.Exit(1)
+			}
+			if err := sarifReport.PrettyWrite(sarifFile); err != nil {
+				sarifFile.Close()
+				fmt.Println("Error writing sarif report: ", err)
+				os.Exit(1)
+			}
+			if err := sarifFile.Close(); err != nil {
 				fmt.Println("Error writing sarif report: ", err)
 				os.Exit(1)
 			}
